@@ -1014,7 +1014,7 @@ fn judge_exposure(ctx: &mut Ctx, x: &[u8], lc: &MessageIntegrityCredentials) -> 
     match (&parsed, &rf) {
         (Ok(msg), Verdict::Accept(view)) => {
             ctx.st.inc("verdict.accepted");
-            if let Err(v) = g("C10", "compare_view", || compare_view(x, msg, view, "C10"))? {
+            if let Err(v) = g("C10", "compare_view", || compare_view(x, msg, view, "C10").and_then(|_| if x[x.len() / 2] & 3 == 0 { crate::pipeline::compare_clone(x, msg, view, "C10") } else { Ok(()) }))? {
                 ev!(ctx, "  !! {} [{}] {}", v.clause, v.site, v.message);
                 return Err(v);
             }
